@@ -388,6 +388,18 @@ func (w *World) byzMenu(r int) []*ByzAction {
 					}
 					m := w.byzVote(b, valIdx, t, h, round, id, tag)
 					out = append(out, &ByzAction{Kind: tag[4:], Label: fmt.Sprintf("%s:v%d:t%d:r%d:%s", tag, b, t, round, blockKey(id)), Msgs: []*Msg{m}})
+					if have != nil && !id.IsZero() && round == rs.Round {
+						// the same conflicting vote REPLAYED under the adversary's own +2/3 claim for that block (a claim makes the
+						// receiver keep conflicting votes for the claimed block): one signer must still count once
+						mc := *m
+						mc.Claim = &Claim{From: b, Round: round, Type: t, ID: id}
+						mc.ByzTag = "byz-equivocation-replayed"
+						var msgs []*Msg
+						for k := 0; k < len(rs.Validators.Validators); k++ {
+							msgs = append(msgs, &mc)
+						}
+						out = append(out, &ByzAction{Kind: "equivocation-replayed", Label: fmt.Sprintf("byz-equivocation-replayed:v%d:t%d:r%d:%s", b, t, round, blockKey(id)), Msgs: msgs})
+					}
 				}
 				// the adversary's own vote (its address, its signature) entered under the INDEX of every other validator but
 				// the receiver: the sign bytes do not cover the index, so only the index/address comparison keeps one
